@@ -345,6 +345,18 @@ func c19Generate(quick bool, emit func(doc string)) {
 				msgs = [][]genItem{{ref("f", "A")}, {bad(8, ref("f", "B"))}, {ref("f", "C")}}
 			}
 			emit(genDoc(msgs, comps, h, t))
+			if pos == 0 {
+				// the dangling reference sits in a component that is declared but used by nothing
+				// (alone, and nested in a group of that component)
+				for _, inGroup := range []bool{false, true} {
+					cu := []genItem{ref("f", "F"), bad(0, ref("f", "E"))}
+					if inGroup {
+						cu = []genItem{ref("f", "F"), {kind: "g", name: "NoG2", req: false, sub: []genItem{ref("f", "E"), bad(0, ref("f", "D"))}}}
+					}
+					comps2 := map[string][]genItem{"C1": {ref("f", "D"), ref("c", "C2")}, "C2": {ref("f", "E")}, "CU": cu}
+					emit(genDoc([][]genItem{{ref("f", "A"), ref("c", "C1")}}, comps2, []genItem{ref("f", "BeginString")}, []genItem{ref("f", "CheckSum")}))
+				}
+			}
 		}
 	}
 }
@@ -381,7 +393,7 @@ func runC19(c *core.Ctx) {
 	} else {
 		c.SetDeadline(30 * time.Minute)
 	}
-	c.SetRule("all nine shipped specifications in full (every message, header, trailer, group at every depth, field type and enumeration) plus generated specifications: three structural templates (component chains, groups in components, components in groups, nested groups) with every combination of required flags and member permutations, duplicate declarations, sibling components and groups sharing a leading nested component of 1-8 fields, and every placement of one dangling field/component/group reference; oracle = independent XML walk")
+	c.SetRule("all nine shipped specifications in full (every message, header, trailer, group at every depth, field type and enumeration) plus generated specifications: three structural templates (component chains, groups in components, components in groups, nested groups) with every combination of required flags and member permutations, duplicate declarations, sibling components and groups sharing a leading nested component of 1-8 fields, and every placement of one dangling field/component/group reference (also inside a component nothing uses); oracle = independent XML walk")
 	c.Assume("when a tag is declared twice at the top level of one message only the set-valued facts (reachable tags, required tags) are compared")
 	var evals int64
 	for _, n := range c09DictNames {
